@@ -177,6 +177,8 @@ def Bookkeeping.Issued : Bookkeeping → Prop
   | .indexRem cp _ _ => Slot.lbrace ∉ cp
   | .latestSeed cp _ _ => Slot.lbrace ∉ cp
   | .latestDel cp _ => Slot.lbrace ∉ cp
+  | .markerDel cp _ => Slot.lbrace ∉ cp
+  | .nsDel cp _ => Slot.lbrace ∉ cp
   | _ => True
 
 /-- effects of a command that is propagated as itself or not at all -/
@@ -235,11 +237,64 @@ theorem propOther_clean (cfg : RedisCfg) (now : Nat) (st : Store) (c : Cmd) (k :
 theorem hsetnx_keys (key : Bytes) (rest : List Bytes) : commandKeys wHsetnx (key :: rest) = some [key] :=
   commandKeys_generic wHsetnx key rest (by decide +kernel) (by decide +kernel)
 
-/-- **`BookClean` is a consequence of the store invariant.** -/
-theorem bookClean_of_nsTtl (cfg : WCfg) (w : World) (src : SiteId) (bk : Bookkeeping) (hv : bk.Valid)
-    (hi : bk.Issued) (hst : NsTtl (w.site src.other).store) : BookClean cfg w src bk := by
+theorem lazyExpire_cases (cfg : RedisCfg) (now : Nat) (st : Store) (k : Bytes) :
+    lazyExpire cfg now st k = (st, []) ∨ lazyExpire cfg now st k = (Store.del st k, [delCmd cfg k]) := by
+  unfold lazyExpire
+  cases hg : st.get k with
+  | none => left; rfl
+  | some e =>
+    cases hx : e.expireAt with
+    | none => left; simp [hx]
+    | some t =>
+      by_cases hle : t ≤ now
+      · right; simp [hx, hle]
+      · left; simp [hx, hle]
+
+/-- `DEL k` of one key propagates as nothing (key absent), as itself (key alive)
+    or as the one DEL / UNLINK of the key's expiry (expired, not reaped) -/
+theorem delOne_effects (rc : RedisCfg) (now : Nat) (st : Store) (k : Bytes) :
+    (propagate rc now st ⟨wDel, [k]⟩).2 = [] ∨ (propagate rc now st ⟨wDel, [k]⟩).2 = [⟨wDel, [k]⟩] ∨
+    (propagate rc now st ⟨wDel, [k]⟩).2 = [delCmd rc k] := by
+  have hp : propagate rc now st ⟨wDel, [k]⟩ = propDel rc now st ⟨wDel, [k]⟩ := by
+    rw [propagate_eq]
+    have e1 : lower wDel = wDel := by decide
+    simp only [e1]
+    rfl
+  rw [hp]
+  rcases lazyExpire_cases rc now st k with h | h
+  · cases hg : st.get k with
+    | some e =>
+      right; left
+      simp [propDel, lazyExpireAll, h, hg]
+    | none =>
+      left
+      simp [propDel, lazyExpireAll, h, hg]
+  · right; right
+    simp [propDel, lazyExpireAll, h, get_del_same]
+
+/-- the DEL of a marker ALONE propagates as nothing, as itself, or as the one
+    DEL / UNLINK of the marker's expiry — whatever the store holds: each a
+    stand-alone marker deletion -/
+theorem markerDel_effects (rc : RedisCfg) (now : Nat) (st : Store) (cp tag : Bytes) :
+    (propagate rc now st (Bookkeeping.markerDel cp tag).toCmd).2 = [] ∨
+    (propagate rc now st (Bookkeeping.markerDel cp tag).toCmd).2 = [(Bookkeeping.markerDel cp tag).toCmd] ∨
+    (propagate rc now st (Bookkeeping.markerDel cp tag).toCmd).2 = [(Bookkeeping.markerExpiry cp tag rc.lazyUnlink).toCmd] :=
+  delOne_effects rc now st (Gen.markerKey cp tag)
+
+theorem bookClean_of_self (cfg : WCfg) (w : World) (src : SiteId) (bk : Bookkeeping) (hv : bk.Valid)
+    (h : SelfOrNothing (execCmds (cfg.redis src.other) (w.site src.other).now (w.site src.other).store [bk.toCmd]).2
+      bk.toCmd) : BookClean cfg w src bk := by
   unfold BookClean
-  simp only
+  rcases h with h | h
+  · exact Or.inl h
+  · exact Or.inr ⟨bk, hv, h⟩
+
+/-- every request other than the DEL of a marker alone propagates as itself or not at all -/
+theorem bookSelf_of_nsTtl (cfg : WCfg) (w : World) (src : SiteId) (bk : Bookkeeping) (hv : bk.Valid)
+    (hi : bk.Issued) (hnm : ∀ cp tag, bk ≠ .markerDel cp tag) (hst : NsTtl (w.site src.other).store) :
+    SelfOrNothing (execCmds (cfg.redis src.other) (w.site src.other).now (w.site src.other).store [bk.toCmd]).2
+      bk.toCmd := by
+  unfold SelfOrNothing
   rw [execCmds_single]
   generalize (w.site src.other).store = st at hst ⊢
   generalize (w.site src.other).now = now
@@ -346,6 +401,42 @@ theorem bookClean_of_nsTtl (cfg : WCfg) (w : World) (src : SiteId) (bk : Bookkee
     intro k hk
     rw [List.mem_singleton.mp hk]
     exact clean_cp _ (front cp hv)
+  | markerDel cp tag => exact absurd rfl (hnm cp tag)
+  | nsDel cp keys =>
+    apply delC
+    intro k hk
+    obtain ⟨tag, h | h | ⟨seq, h⟩⟩ := hv.2 k hk
+    · rw [h]
+      refine nsTtl_clean st hst _ ?_ (latestKey_not_marker cp tag hi)
+      unfold Gen.latestKey
+      have := nsform (cp ++ ([58,108,97,116,101,115,116,58,123] ++ (tag ++ [125])))
+      simpa [List.append_assoc] using this
+    · rw [h]
+      refine nsTtl_clean st hst _ ?_ (commitIndexKey_not_marker cp tag hi)
+      unfold Gen.commitIndexKey
+      have := nsform (cp ++ ([58,105,110,100,101,120,58,123] ++ (tag ++ [125])))
+      simpa [List.append_assoc] using this
+    · rw [h]
+      refine nsTtl_clean st hst _ ?_ (commitRecordKey_not_marker cp tag seq hi)
+      unfold Gen.commitRecordKey
+      simp only [List.append_assoc]
+      have := nsform (cp ++ ([58,99,111,109,109,105,116,58,123] ++ (tag ++ ([125,58] ++ Gen.pad20 seq))))
+      simpa [List.append_assoc] using this
+
+/-- **`BookClean` is a consequence of the store invariant.** -/
+theorem bookClean_of_nsTtl (cfg : WCfg) (w : World) (src : SiteId) (bk : Bookkeeping) (hv : bk.Valid)
+    (hi : bk.Issued) (hst : NsTtl (w.site src.other).store) : BookClean cfg w src bk := by
+  by_cases hm : ∃ cp tag, bk = .markerDel cp tag
+  · obtain ⟨cp, tag, rfl⟩ := hm
+    unfold BookClean
+    simp only
+    rw [execCmds_single]
+    rcases markerDel_effects (cfg.redis src.other) (w.site src.other).now (w.site src.other).store cp tag with h | h | h
+    · exact Or.inl h
+    · exact Or.inr ⟨_, hv, h⟩
+    · exact Or.inr ⟨.markerExpiry cp tag (cfg.redis src.other).lazyUnlink, trivial, h⟩
+  · exact bookClean_of_self cfg w src bk hv
+      (bookSelf_of_nsTtl cfg w src bk hv hi (fun cp tag h => hm ⟨cp, tag, h⟩) hst)
 
 /-! ### which commands of an execution can put an expiry on a namespace key -/
 
@@ -443,6 +534,8 @@ theorem book_name (bk : Bookkeeping) :
   | latestDel _ _ => exact Or.inr (Or.inl rfl)
   | rootDel _ => exact Or.inr (Or.inl rfl)
   | frontierDel _ => exact Or.inr (Or.inl rfl)
+  | markerDel _ _ => exact Or.inr (Or.inl rfl)
+  | nsDel _ _ => exact Or.inr (Or.inl rfl)
 
 theorem ttlSafe_book (bk : Bookkeeping) : TtlSafe bk.toCmd := by
   apply ttlSafe_noName
